@@ -6,6 +6,11 @@ from .constants import POS, RESULT, STATUS, TEXT
 class Expression:
     defines_local = False
     has_params = False
+    is_class_member = False
+
+    # The bound names (let variables, parameters, class members) that inline
+    # Python within this expression refers to. (See _update_local_references.)
+    local_names = ()
 
     is_commented = True
     is_reference = False
@@ -103,6 +108,7 @@ class SymbolCounter:
     def __init__(self):
         self.freevars = set()
         self._counts = defaultdict(int)
+        self._member_counts = defaultdict(int)
 
     def previsit(self, node):
         if node.defines_local:
@@ -115,6 +121,10 @@ class SymbolCounter:
         if node.is_reference and node.is_local and not self.is_bound(node.name):
             self.freevars.add(node.name)
 
+        for name in node.local_names:
+            if not self.is_bound(name):
+                self.freevars.add(name)
+
     def postvisit(self, node):
         if node.defines_local:
             self._counts[node.name] -= 1
@@ -123,5 +133,17 @@ class SymbolCounter:
             for param in node.params:
                 self._counts[param] -= 1
 
+        # A class member is bound for the members that follow it, until the
+        # end of the class.
+        if node.is_class_member and node.name:
+            self._member_counts[node.name] += 1
+
+        for member in getattr(node, 'members', None) or []:
+            if getattr(member, 'is_class_member', False) and member.name:
+                self._member_counts[member.name] -= 1
+
     def is_bound(self, name):
-        return self._counts[name] > 0
+        return self._counts[name] > 0 or self._member_counts[name] > 0
+
+    def is_class_member_only(self, name):
+        return self._counts[name] == 0 and self._member_counts[name] > 0
